@@ -32,8 +32,44 @@ def _metric_seq(n):
     return st.one_of(free, walked, walked)
 
 
+SCALES = ("unit", "unit", "unit", "negative", "big", "decimal", "int")
+TRAIN_GARBAGE = ("inf", "-inf", "nan", 1e300, -1e300, 0.0)
+
+
+def _rescale(cfg, kind, j):
+    """Move a case drawn on the unit grid k/4 to another value class; thresholds move with the metrics.
+
+    * ``negative``: metrics shifted by -4 (lower is better does not mean positive);
+    * ``big``: everything times 10**j (exact: the values stay dyadic with <= 3 significant digits);
+    * ``decimal``: 5-significant-digit decimals (12345 + k) * 10**-j, not dyadic; thresholds (t + 1/2) * 10**-j, so that
+      no difference of two metrics ever *equals* a threshold and the decision does not hinge on how the implementation
+      rounds the subtraction;
+    * ``int``: metrics passed as Python ints.
+    """
+    val, train = cfg["val"], cfg["train"]
+    if kind == "negative":
+        cfg["val"] = [v - 4.0 for v in val]
+        cfg["train"] = [v - 4.0 for v in train]
+    elif kind == "big":
+        f = float(10 ** j)
+        cfg["val"] = [v * f for v in val]
+        cfg["train"] = [v * f for v in train]
+        cfg["es_thr"] *= f
+        cfg["rlr_thr"] *= f
+    elif kind == "decimal":
+        cfg["val"] = [float("%de-%d" % (12345 + int(v * 4), j)) for v in val]
+        cfg["train"] = [float("%de-%d" % (20000 + int(v * 4), j)) for v in train]
+        for k in ("es_thr", "rlr_thr"):
+            t = int(cfg[k] * 4)
+            cfg[k] = float("%d.5e-%d" % (t, j)) if t else 0.0
+    elif kind == "int":
+        cfg["val"] = [int(round(v)) for v in val]
+        cfg["train"] = [int(round(v)) for v in train]
+    cfg["scale"] = kind
+
+
 @st.composite
-def config(draw, max_len, fmts=("default",), keep=None, min_len=1):
+def config(draw, max_len, fmts=("default",), keep=None, min_len=1, scales=SCALES):
     n = draw(st.integers(min_len, max_len))
     thr = weighted((1, st.just(0.0)), (4, dyadic(4, 0.25, 2)))
     factor = draw(st.sampled_from([0.5, 0.25]))
@@ -67,15 +103,34 @@ def config(draw, max_len, fmts=("default",), keep=None, min_len=1):
         "lr_exp": lr_exp,
         "groups": draw(st.sampled_from([1, 2])),
         "keep": draw(st.booleans()) if keep is None else keep,
-        "fmt": draw(st.sampled_from(list(fmts))),
+        "fmt": list(fmts)[0],
     }
     if draw(st.integers(0, 9)) == 0:
         # boundary class: reductions fire almost every epoch and the rate passes through 2 -> 1, where the
         # change equals epsilon = 10**0 exactly (must count as negligible)
         cfg.update({"eps": 0, "factor": 0.5, "lr_mode": "opt", "lr_exp": draw(st.integers(1, 3)), "rlr_thr": 2.0,
                     "rlr_pat": 1, "rlr_burn": 0, "rlr_cool": draw(st.integers(0, 1)), "es_thr": draw(st.sampled_from([0.0, 0.25]))})
+    elif draw(st.integers(0, 11)) == 0:
+        # the default factor 0.1 with a rate 10**k from log10_learning_rate: 10**4 ... 0.1 are reached exactly, the next
+        # reduction would leave the printed grid (rejected) unless the coarse epsilon calls it negligible
+        cfg.update({"factor": 0.1, "lr_mode": "param", "lr_exp": draw(st.integers(0, 4)), "eps": draw(st.sampled_from([-8, -1, -1, 0]))})
     cfg["val"] = draw(_metric_seq(n))
     cfg["train"] = draw(st.lists(dyadic(4, 0, 8), min_size=n, max_size=n))
+    # ---- classes added when the generators were widened (memory layout / dtype of the saved state, magnitude and
+    # type of the metrics, garbage in the training metric, which no decision depends on)
+    # Model kind and file-name format are functions of everything drawn so far plus one integer: Hypothesis re-uses
+    # prefixes of earlier examples, and with budgets of a few dozen cases (C16) a directly drawn choice can miss a value
+    mix = draw(st.integers(0, 10 ** 6)) + n * 7 + cfg["es_pat"] * 13 + rlr_pat * 17 + cfg["rlr_cool"] * 19 + int(4 * sum(cfg["val"])) \
+        + int(4 * sum(cfg["train"]))
+    cfg["model"] = ("plain", "strided", "f64buf", "plain")[mix % 4]
+    cfg["fmt"] = list(fmts)[(mix // 4) % len(fmts)]
+    kind = draw(st.sampled_from(list(scales)))
+    j = draw(st.sampled_from([3, 6, 12])) if kind == "big" else draw(st.sampled_from([4, 9, 30])) if kind == "decimal" else 0
+    _rescale(cfg, kind, j)
+    if draw(st.integers(0, 5)) == 0:
+        pos = draw(st.lists(st.integers(0, n - 1), min_size=1, max_size=3))
+        for i in pos:
+            cfg["train"][i] = draw(st.sampled_from(list(TRAIN_GARBAGE)))
     return cfg
 
 
@@ -84,18 +139,38 @@ def _restarts(n):
     return st.lists(st.tuples(st.integers(0, n), st.sampled_from(["ctl", "full"])), max_size=4)
 
 
+EXTRAS = ("update_cache", "query_past", "explicit_epoch")
+
+
+def _extras(n):
+    """Call patterns on the running controller that must not change anything: a manual ``update_cache()`` after an
+    epoch, ``continue_training(j)`` / ``controller[j]`` asked about every earlier epoch, the epoch number passed
+    explicitly to ``update_for_epoch``."""
+    return st.lists(st.tuples(st.integers(1, n), st.sampled_from(list(EXTRAS))), max_size=3)
+
+
 def _check_domain(cfg):
     """The property is stated for rates that the history file prints exactly."""
     infos, conts, ref = T.ref_trajectory(cfg, cfg["val"])
     if not T.representable5(T.lr0_of(cfg)) or not all(T.representable5(i["lr"]) for i in infos):
         raise Reject("learning rate leaves the 5-significant-digit grid")
+    if not all(T.representable5(v) for v in cfg["val"]):
+        raise Reject("validation metric off the 5-significant-digit grid")
     return infos, conts, ref
 
 
 # ---------------------------------------------------------------- per-epoch comparison
 
 
-def _compare_epoch(s, ref, cont_real, cont_ref, lrs_before, train, val, vals_so_far, where=""):
+def _info_of(ctl, epoch, where=""):
+    """get_info(epoch) of a recorded epoch (the method returns None instead of raising when the entry is missing)."""
+    info = ctl.get_info(epoch, None)
+    require(info is not None, "history entry of epoch %d missing%s" % (epoch, where), None, "an entry")
+    return info
+
+
+def _compare_epoch(s, ref, cont_real, cont_ref, lrs_before, train, val, best, where=""):
+    """``best``: the oracle's best epoch so far (lowest validation metric, earliest on ties)."""
     ctl = s.ctl
     e = ref.epoch
     require(cont_real is cont_ref or cont_real == cont_ref,
@@ -103,11 +178,11 @@ def _compare_epoch(s, ref, cont_real, cont_ref, lrs_before, train, val, vals_so_
     require(ctl.get_last_epoch() == e, "get_last_epoch after update%s" % where, ctl.get_last_epoch(), e)
     cc = ctl.continue_training()
     require(cc == cont_ref, "continue_training() after epoch %d%s" % (e, where), cc, cont_ref)
-    info = ctl.get_info(e)
+    info = _info_of(ctl, e, where)
     exp = ref.info()
     got = {k: info[k] for k in INFO_KEYS}
     require(got == exp, "countdowns / learning rate recorded for epoch %d%s" % (e, where), got, exp)
-    require(info["train_met"] == train and info["val_met"] == val, "metrics recorded for epoch %d" % e,
+    require(T.same_num(info["train_met"], train) and T.same_num(info["val_met"], val), "metrics recorded for epoch %d" % e,
             [info["train_met"], info["val_met"]], [train, val])
     lrs = [g["lr"] for g in s.opt.param_groups]
     if ref.reduced:
@@ -116,8 +191,9 @@ def _compare_epoch(s, ref, cont_real, cont_ref, lrs_before, train, val, vals_so_
     else:
         require(lrs == lrs_before, "optimizer rate changed although no reduction was due (epoch %d)%s" % (e, where),
                 lrs, lrs_before)
-    b = ctl.get_best_epoch()
-    require(b == T.best_epoch(vals_so_far), "get_best_epoch after epoch %d" % e, b, T.best_epoch(vals_so_far))
+    if best is not None:
+        b = ctl.get_best_epoch()
+        require(b == best, "get_best_epoch after epoch %d%s" % (e, where), b, best)
 
 
 def _classes(ref, fired_es, fired_rlr, reduced, negligible, restarted_inside, cfg):
@@ -140,12 +216,21 @@ def _classes(ref, fired_es, fired_rlr, reduced, negligible, restarted_inside, cf
         cl.append("cooldown_used")
     if ref.eps_boundary:
         cl.append("change_equals_epsilon")
+    cl.append("model_" + cfg.get("model", "plain"))
+    cl.append("metrics_" + cfg.get("scale", "unit"))
+    if cfg["factor"] == 0.1 and reduced:
+        cl.append("default_factor_reduced")
+    if any(isinstance(t, str) or abs(t) >= 1e300 for t in cfg["train"][: ref.epoch]):
+        cl.append("train_metric_garbage")
     return cl
 
 
-def _run_against_model(cfg, root, storage, restarts, uninterrupted=None):
-    """Drive the real controller over the history with the given restarts; compare every epoch
-    with the reference model. Returns (Info pieces, per-epoch records)."""
+def _steps(cfg, root, storage, restarts, extras=(), light=False):
+    """Drive the real controller over the history with the given restarts and extra calls; compare every epoch
+    with the reference model. A generator: yields after every epoch (so that two runs can be interleaved);
+    its return value is (nontrivial, classes, per-epoch records). The caller provides ``T.quiet()``.
+
+    ``light``: for long histories - no per-epoch records (they grow quadratically)."""
     _check_domain(cfg)
     use_csv = storage != "mem"
     use_dir = storage == "dir"
@@ -154,54 +239,97 @@ def _run_against_model(cfg, root, storage, restarts, uninterrupted=None):
     by_epoch = {}
     for e, how in restarts:
         by_epoch.setdefault(e, how)
+    extra_at = {}
+    for e, kind in extras:
+        extra_at.setdefault(e, set()).add(kind)
     records = []
+    used_extras = set()
     fired_es = fired_rlr = reduced = negligible = restarted_inside = False
-    with T.quiet():
-        s.start()
-        if cfg["lr_mode"] == "param":
-            lrs = [g["lr"] for g in s.opt.param_groups]
-            require(all(x == T.lr0_of(cfg) for x in lrs), "initial rate from log10_learning_rate not written to the optimizer",
-                    lrs, T.lr0_of(cfg))
-        if 0 in by_epoch and use_csv:
-            s.start(scramble=1) if (by_epoch[0] == "full" and use_dir) else s.rebuild_controller_only()
-        n = len(cfg["val"])
-        cont = True
-        for i in range(n):
-            train, val = cfg["train"][i], cfg["val"][i]
-            lrs_before = [g["lr"] for g in s.opt.param_groups]
-            cont_real = s.epoch(train, val)
-            cont_ref = ref.update(val)
-            _compare_epoch(s, ref, cont_real, cont_ref, lrs_before, train, val, cfg["val"][: i + 1])
-            fired_es |= ref.es_fired
-            fired_rlr |= ref.rlr_fired
-            reduced |= ref.reduced
-            negligible |= ref.rlr_fired and not ref.reduced
+    s.start()
+    if cfg["lr_mode"] == "param":
+        lrs = [g["lr"] for g in s.opt.param_groups]
+        require(all(x == T.lr0_of(cfg) for x in lrs), "initial rate from log10_learning_rate not written to the optimizer",
+                lrs, T.lr0_of(cfg))
+    if 0 in by_epoch and use_csv:
+        s.start(scramble=1) if (by_epoch[0] == "full" and use_dir) else s.rebuild_controller_only()
+    n = len(cfg["val"])
+    conts = []
+    best, best_val = 0, T.INF
+    for i in range(n):
+        train, val = cfg["train"][i], cfg["val"][i]
+        e = i + 1
+        kinds = extra_at.get(e, ())
+        lrs_before = [g["lr"] for g in s.opt.param_groups]
+        cont_real = s.epoch(train, val, explicit_epoch="explicit_epoch" in kinds)
+        if "explicit_epoch" in kinds:
+            used_extras.add("call_explicit_epoch")
+        cont_ref = ref.update(val)
+        conts.append(cont_ref)
+        if val < best_val:
+            best, best_val = e, val
+        # long histories: the controller's best-epoch scan is linear in the history, so it is asked at sampled epochs only
+        ask_best = (not light) or e <= 40 or e % 16 in (0, 1) or e >= n - 2 or e in by_epoch
+        _compare_epoch(s, ref, cont_real, cont_ref, lrs_before, train, val, best if ask_best else None)
+        if "update_cache" in kinds:
+            # documented as a manual refresh from the history file; nothing has changed, so nothing may change
+            s.ctl.update_cache()
+            used_extras.add("call_update_cache")
+            _compare_epoch(s, ref, cont_real, cont_ref, lrs_before, train, val, best, " (after a manual update_cache())")
+        if "query_past" in kinds:
+            used_extras.add("call_query_past")
+            for j in range(1, e + 1):
+                cj = s.ctl.continue_training(j)
+                require(cj == conts[j - 1], "continue_training(%d) asked after epoch %d" % (j, e), cj, conts[j - 1])
+                require(_info_of(s.ctl, j)["epoch"] == s.ctl[j]["epoch"] == j, "controller[%d] after epoch %d" % (j, e), s.ctl[j]["epoch"], j)
+        fired_es |= ref.es_fired
+        fired_rlr |= ref.rlr_fired
+        reduced |= ref.reduced
+        negligible |= ref.rlr_fired and not ref.reduced
+        if not light:
             records.append({"cont": cont_real, "csv": s.csv_bytes(), "snap": T.snapshot(s.model, s.opt),
-                            "infos": [dict(s.ctl.get_info(k)) for k in range(1, ref.epoch + 1)]})
-            e = i + 1
-            if e in by_epoch and use_csv:
-                snap_before = T.snapshot(s.model, s.opt)
-                if by_epoch[e] == "full" and use_dir:
-                    s.start(scramble=e + 1)
-                    snap_after = T.snapshot(s.model, s.opt)
-                    require(snap_after == snap_before, "state loaded after restart differs from the state saved at epoch %d" % e,
-                            snap_after, snap_before)
-                else:
-                    s.rebuild_controller_only()
-                if cont_ref and e < n:
-                    restarted_inside = True
-                # the rebuilt controller reports the same history and the same decision
-                require(s.ctl.get_last_epoch() == e, "last epoch after restart", s.ctl.get_last_epoch(), e)
-                cc = s.ctl.continue_training()
-                require(cc == cont_ref, "continue_training() of the rebuilt controller after epoch %d" % e, cc, cont_ref)
-                got = {k: s.ctl.get_info(e)[k] for k in INFO_KEYS}
-                require(got == ref.info(), "state re-read from the history file after epoch %d" % e, got, ref.info())
-            if not cont_ref:
-                break
+                            "infos": [T.canon_info(_info_of(s.ctl, k)) for k in range(1, ref.epoch + 1)]})
+        if e in by_epoch and use_csv:
+            snap_before = T.snapshot(s.model, s.opt)
+            if by_epoch[e] == "full" and use_dir:
+                s.start(scramble=e + 1)
+                snap_after = T.snapshot(s.model, s.opt)
+                require(snap_after == snap_before, "state loaded after restart differs from the state saved at epoch %d" % e,
+                        snap_after, snap_before)
+            else:
+                s.rebuild_controller_only()
+            if cont_ref and e < n:
+                restarted_inside = True
+            # the rebuilt controller reports the same history and the same decision
+            require(s.ctl.get_last_epoch() == e, "last epoch after restart", s.ctl.get_last_epoch(), e)
+            cc = s.ctl.continue_training()
+            require(cc == cont_ref, "continue_training() of the rebuilt controller after epoch %d" % e, cc, cont_ref)
+            got = {k: _info_of(s.ctl, e, " after a restart")[k] for k in INFO_KEYS}
+            require(got == ref.info(), "state re-read from the history file after epoch %d" % e, got, ref.info())
+            b = s.ctl.get_best_epoch()
+            require(b == best, "get_best_epoch of the rebuilt controller after epoch %d" % e, b, best)
+        yield e
+        if not cont_ref:
+            break
     classes = _classes(ref, fired_es, fired_rlr, reduced, negligible, restarted_inside, cfg)
     classes.append("storage_" + storage)
+    classes += sorted(used_extras)
     nontrivial = ref.fired_after_reset and restarted_inside
+    if light:
+        records = {"csv": s.csv_bytes(), "snap": T.snapshot(s.model, s.opt), "epochs": ref.epoch, "session": s}
     return nontrivial, classes, records
+
+
+def _drive(gen):
+    while True:
+        try:
+            next(gen)
+        except StopIteration as stop:
+            return stop.value
+
+
+def _run_against_model(cfg, root, storage, restarts, extras=(), light=False):
+    with T.quiet():
+        return _drive(_steps(cfg, root, storage, restarts, extras, light))
 
 
 # ---------------------------------------------------------------- sub-check: model
@@ -215,24 +343,31 @@ def _model_strategy(tier):
         cfg = draw(config(max_len))
         cfg["storage"] = draw(st.sampled_from(["mem", "mem", "csv", "csv", "dir"]))
         cfg["restarts"] = draw(_restarts(len(cfg["val"])))
+        cfg["extras"] = draw(_extras(len(cfg["val"])))
         return cfg
 
     return s()
 
 
 @subcheck("C15", "decisions_vs_model", _model_strategy, quick=1500, thorough=40000,
-          doc="generated parameters + metric history (+ restarts when a history file exists): decision, countdowns, "
-              "rate, optimizer groups after every epoch == explicit-reference-value model",
+          doc="generated parameters + metric history (+ restarts when a history file exists; + manual update_cache(), "
+              "questions about earlier epochs, explicit epoch numbers): decision, countdowns, rate, optimizer groups after "
+              "every epoch == explicit-reference-value model. Metrics on the unit grid, shifted negative, times 10**j, "
+              "5-digit decimals times 10**-j, Python ints; non-finite / huge training metrics",
           required_classes=["early_stop_fired", "rate_reduced", "fired_after_reset", "negligible_change",
-                            "restart_inside", "budget_reached", "change_equals_epsilon"])
+                            "restart_inside", "budget_reached", "change_equals_epsilon",
+                            "metrics_negative", "metrics_big", "metrics_decimal", "metrics_int", "train_metric_garbage",
+                            "call_update_cache", "call_query_past", "call_explicit_epoch", "model_strided", "model_f64buf",
+                            "default_factor_reduced"])
 def _model_check(case):
     storage = case["storage"]
     restarts = [tuple(r) for r in case["restarts"]]
+    extras = [tuple(x) for x in case.get("extras", [])]
     if storage == "mem":
-        nontrivial, classes, _ = _run_against_model(case, None, storage, restarts)
+        nontrivial, classes, _ = _run_against_model(case, None, storage, restarts, extras)
         return Info(nontrivial=nontrivial, classes=classes)
     with T.scratch() as root:
-        nontrivial, classes, _ = _run_against_model(case, root, storage, restarts)
+        nontrivial, classes, _ = _run_against_model(case, root, storage, restarts, extras)
     return Info(nontrivial=nontrivial, classes=classes)
 
 
@@ -273,7 +408,7 @@ def _diff_strategy(tier):
 
     @st.composite
     def s(draw):
-        cfg = draw(config(max_len, fmts=("default", "default", "custom", "subdir"), min_len=2))
+        cfg = draw(config(max_len, fmts=("default", "default", "custom", "subdir", "info"), min_len=2))
         n = len(cfg["val"])
         cfg["restarts"] = draw(st.lists(st.tuples(st.integers(0, n), st.sampled_from(["ctl", "full", "full"])),
                                         min_size=1, max_size=4))
@@ -296,7 +431,8 @@ def _same_records(a, b, what):
           doc="same history run twice on disk: with generated restarts (controller only, or everything rebuilt and "
               "loaded from the state directory) vs uninterrupted: decisions, get_info, CSV bytes, parameters, "
               "momentum and rates identical; both == reference model",
-          required_classes=["restart_inside", "fired_after_reset", "rate_reduced"])
+          required_classes=["restart_inside", "fired_after_reset", "rate_reduced", "fmt_info", "model_strided", "model_f64buf",
+                            "metrics_decimal", "train_metric_garbage"])
 def _diff_check(case):
     restarts = [tuple(r) for r in case["restarts"]]
     with T.scratch() as root_a, T.scratch() as root_b:
@@ -305,6 +441,7 @@ def _diff_check(case):
         _same_records(recs, base, "restarted vs uninterrupted")
     if case["keep"]:
         classes.append("keep_last_and_best")
+    classes.append("fmt_" + case["fmt"])
     return Info(nontrivial=nontrivial, classes=classes)
 
 
@@ -343,10 +480,254 @@ def _subsets_check(case):
     return Info(nontrivial=nontrivial, classes=sorted(classes_all) + ["subsets_%d" % (2 ** n - 1)])
 
 
+# ---------------------------------------------------------------- sub-check: long histories
+
+
+def _long_strategy(tier, which):
+    if which == "large":
+        sizes = tuple(x for x in T.SIZES if x > 1000) + (() if tier == "quick" else (4097,))
+    else:
+        sizes = tuple(x for x in T.SIZES if x < 1000)
+    big = st.sampled_from([9, 10, 11, 15, 16, 17, 99, 100, 101])
+    small3 = st.integers(1, 3)
+    small2 = st.integers(0, 2)
+
+    pool = sizes
+
+    @st.composite
+    def s(draw):
+        q = draw(st.sampled_from([0.25, 1.0]))
+        hi = 3999 if q == 0.25 else 99999
+        # half of the cases cannot stop before the end (no early stopping, budget >= n), so that the large sizes are
+        # really reached; in the other half a long run needs a long stopping patience or a history that keeps improving
+        to_the_end = draw(st.booleans())
+        es_t = 0 if to_the_end else draw(st.sampled_from([0, 1, 2, 4, 8]))
+        rlr_t = draw(st.sampled_from([0, 1, 2, 4, 8]))
+        eps = draw(st.sampled_from([-8, -1, 0, 0]))
+        es_pat = draw(weighted((2, small3), (3, big)))
+        rlr_pat = draw(weighted((2, small3), (3, big)))
+        rlr_cool = draw(weighted((2, small2), (2, big)))
+        lens = [1, 2, 3, 20, 50, 120, 700]
+        for v in (es_pat, rlr_pat, rlr_cool):
+            lens += [v - 1, v, v + 1]
+        lens = sorted({v for v in lens if v >= 1})
+        segs = draw(st.lists(st.tuples(st.integers(0, 5), st.sampled_from(lens), st.integers(0, 9)), min_size=1, max_size=8))
+        start = draw(st.one_of(st.integers(0, hi), st.integers(0, 64), st.integers(hi - 64, hi)))
+        # the size is a function of everything drawn so far (Hypothesis re-uses prefixes of earlier examples, which
+        # would otherwise repeat one size many times in a small budget)
+        mix = draw(st.integers(0, 10 ** 6)) + start + es_pat * 13 + rlr_pat * 17 + rlr_cool * 19 + sum(31 * a + 7 * b + c for a, b, c in segs)
+        n = pool[mix % len(pool)]
+        if eps == -8:
+            # at most 23 halvings keep 2**16 on the printed grid: space the reductions out
+            lr_exp = 16
+            need = -(-n // 22)
+            if rlr_pat + rlr_cool < need:
+                rlr_cool = need - rlr_pat
+        else:
+            lr_exp = draw(st.integers(1, 16))   # the coarse epsilon stops the reductions at 2.0 (0.125)
+        storage = draw(st.sampled_from(["mem", "csv", "csv", "dir"]))
+        if storage == "dir" and n > (300 if tier == "quick" else 1100):
+            storage = "csv"   # a state directory for > 1000 epochs only in the thorough tier (two checkpoints per epoch)
+        cfg = {
+            "n": n, "q": q, "start": start,
+            "segs": [list(x) for x in segs],
+            "num_epochs": draw(st.sampled_from([None, None, n, n + 5] if to_the_end else [None, None, n, n - 1, n + 5, 10, 100, 1000])),
+            "es_thr": es_t * q, "es_pat": es_pat, "es_burn": draw(weighted((2, small2), (1, big))),
+            "rlr_thr": rlr_t * q, "rlr_pat": rlr_pat, "rlr_burn": draw(weighted((2, small2), (1, big))), "rlr_cool": rlr_cool,
+            "factor": 0.5, "eps": eps, "lr_mode": "opt", "lr_exp": lr_exp, "groups": draw(st.sampled_from([1, 2])),
+            "keep": True, "fmt": "default", "model": draw(st.sampled_from(["plain", "strided", "f64buf"])),
+            "storage": storage,
+            "restarts": draw(st.lists(st.tuples(st.integers(0, n), st.sampled_from(["ctl", "full"])),
+                                      min_size=0 if storage == "mem" else 1, max_size=3)),
+            "extras": draw(st.lists(st.tuples(st.integers(1, n), st.sampled_from(list(EXTRAS))), max_size=2)),
+        }
+        return cfg
+
+    return s()
+
+
+def _size_classes(epochs):
+    return ["epochs_ge_%d" % t for t in (16, 32, 64, 128, 256, 1024, 2049) if epochs >= t]
+
+
+_LONG_DOC = ("histories of %s epochs - the sizes around %s - expanded deterministically "
+             "from <= 8 generated segments (improve / plateau / worsen / zig-zag / jump, lengths around the patiences and the "
+             "cool-down) on the grid k/4 <= 999.75 or k <= 99999; patiences, burn-ins, cool-downs of 1..3 and of 9..11, "
+             "15..17, 99..101 (countdowns with two and three digits); num_epochs None / n-1 / n / n+5 / 10 / 100 / 1000; in "
+             "memory, with a history file, with a state directory (n <= 257; thorough <= 1025); restarts; every epoch == "
+             "reference model (get_best_epoch asked at sampled epochs: all up to 40, then every 16th and its successor, the "
+             "last three and the restart points); afterwards a new controller re-reads every row; for n <= 257 the final "
+             "history file and state of a run with restarts equal those of an uninterrupted run")
+
+
+def _register_long(name, which, quick, thorough, doc, required):
+    return subcheck("C15", name, lambda tier: _long_strategy(tier, which), quick=quick, thorough=thorough, doc=doc,
+                    required_classes=required, timeout_s=6000)
+
+
+def _long_check(case):
+    cfg = dict(case)
+    cfg["val"], cfg["train"] = T.expand_history(case)
+    storage = case["storage"]
+    restarts = [tuple(r) for r in case["restarts"]]
+    extras = [tuple(x) for x in case["extras"]]
+    infos, conts, ref = _check_domain(cfg)
+
+    def final_checks(fin):
+        s = fin["session"]
+        if s.csv is None:
+            return
+        # a controller built afterwards re-reads every row
+        ctl = T.make_controller(cfg, s.csv, s.sdir)
+        require(ctl.get_last_epoch() == len(infos), "last epoch re-read from the history file", ctl.get_last_epoch(), len(infos))
+        for j, exp in enumerate(infos, 1):
+            info = _info_of(ctl, j, " in the re-read history")
+            got = {k: info[k] for k in INFO_KEYS}
+            require(got == exp, "row of epoch %d re-read from the history file" % j, got, exp)
+            require(info["val_met"] == cfg["val"][j - 1] and info["train_met"] == cfg["train"][j - 1],
+                    "metrics of epoch %d re-read from the history file" % j, [info["train_met"], info["val_met"]],
+                    [cfg["train"][j - 1], cfg["val"][j - 1]])
+        b = ctl.get_best_epoch()
+        require(b == T.best_epoch(cfg["val"][: len(infos)]), "best epoch re-read from the history file", b,
+                T.best_epoch(cfg["val"][: len(infos)]))
+
+    if storage == "mem":
+        nontrivial, classes, fin = _run_against_model(cfg, None, storage, restarts, extras, light=True)
+    else:
+        with T.scratch() as root, T.quiet():
+            import os
+
+            a, b = os.path.join(root, "a"), os.path.join(root, "b")
+            os.mkdir(a)
+            os.mkdir(b)
+            nontrivial, classes, fin = _drive(_steps(cfg, a, storage, restarts, extras, light=True))
+            final_checks(fin)
+            if restarts and cfg["n"] <= 257:
+                _, _, base = _drive(_steps(cfg, b, storage, [], (), light=True))
+                require(fin["epochs"] == base["epochs"], "restarted vs uninterrupted: epochs run", fin["epochs"], base["epochs"])
+                require(fin["csv"] == base["csv"], "restarted vs uninterrupted: final history file differs",
+                        fin["csv"].decode()[-400:], base["csv"].decode()[-400:])
+                require(fin["snap"] == base["snap"], "restarted vs uninterrupted: final model / optimizer state", fin["snap"],
+                        base["snap"])
+    epochs = fin["epochs"]
+    classes += _size_classes(epochs)
+    cds = []
+    if cfg["es_thr"] > 0:
+        cds += [cfg["es_pat"], cfg["es_burn"]]
+    if cfg["rlr_thr"] > 0:
+        cds += [cfg["rlr_pat"], cfg["rlr_burn"], cfg["rlr_cool"]]
+    if cds and max(cds) >= 10:
+        classes.append("countdown_ge_10")
+    if cds and max(cds) >= 100:
+        classes.append("countdown_ge_100")
+    if cfg["num_epochs"] is not None and cfg["num_epochs"] >= 10:
+        classes.append("num_epochs_ge_10")
+    return Info(nontrivial=nontrivial, classes=classes)
+
+
+_register_long("long_history", "small", 48, 1000, _LONG_DOC % ("15..257", "16, 32, 64, 128, 256"),
+               ["epochs_ge_16", "epochs_ge_128", "countdown_ge_10", "countdown_ge_100", "restart_inside", "fired_after_reset",
+                "rate_reduced", "early_stop_fired"])(_long_check)
+_register_long("long_history_1k", "large", 20, 600, _LONG_DOC % ("1023..2049 (thorough 4097)", "1024 and 2048 (4096)"),
+               ["epochs_ge_1024", "countdown_ge_10", "restart_inside"])(_long_check)
+
+
+# ---------------------------------------------------------------- sub-check: two controllers alive at once
+
+
+def _inter_strategy(tier):
+    max_len = 6 if tier == "quick" else 9
+
+    @st.composite
+    def s(draw):
+        a = draw(config(max_len, fmts=("default", "custom"), min_len=2))
+        if draw(st.booleans()):
+            # the same parameter values (hence, through trainctl.make_params, the same TrainingStateParams object),
+            # another history
+            b = dict(a, val=list(reversed(a["val"])), train=list(reversed(a["train"])))
+            shared = True
+        else:
+            b = draw(config(max_len, fmts=("default", "custom"), min_len=2))
+            shared = False
+        out = {"shared": shared, "schedule": draw(st.lists(st.booleans(), min_size=2, max_size=2 * max_len))}
+        for key, c in (("a", a), ("b", b)):
+            c = dict(c)
+            c["storage"] = draw(st.sampled_from(["mem", "csv", "dir"]))
+            c["restarts"] = draw(_restarts(len(c["val"])))
+            c["extras"] = draw(_extras(len(c["val"])))
+            out[key] = c
+        return out
+
+    return s()
+
+
+@subcheck("C15", "interleaved_controllers", _inter_strategy, quick=300, thorough=6000,
+          doc="two training runs alive in the same process (own files, own model and optimizer; in half of the cases the same "
+              "TrainingStateParams object), advanced epoch by epoch in a generated interleaving, each with its own restarts: "
+              "each == its reference model at every epoch, i.e. no state leaks between controller objects",
+          required_classes=["shared_params_object", "separate_params_objects", "both_ran_interleaved"])
+def _inter_check(case):
+    import os
+
+    with T.scratch() as root, T.quiet():
+        gens, done, results = {}, {}, {}
+        for key in ("a", "b"):
+            c = case[key]
+            d = os.path.join(root, key)
+            os.mkdir(d)
+            gens[key] = _steps(c, d if c["storage"] != "mem" else None, c["storage"], [tuple(r) for r in c["restarts"]],
+                               [tuple(x) for x in c["extras"]])
+        order = ["a" if x else "b" for x in case["schedule"]]
+        steps = {"a": 0, "b": 0}
+        switches = 0
+        last = None
+        while len(results) < 2:
+            key = order.pop(0) if order else ("a" if "a" not in results else "b")
+            if key in results:
+                key = "b" if key == "a" else "a"
+            try:
+                next(gens[key])
+                steps[key] += 1
+                if last is not None and last != key:
+                    switches += 1
+                last = key
+            except StopIteration as stop:
+                results[key] = stop.value
+    classes = set()
+    nontrivial = False
+    for key in ("a", "b"):
+        nt, cl, _ = results[key]
+        nontrivial |= nt
+        classes.update(cl)
+    classes.add("shared_params_object" if case["shared"] else "separate_params_objects")
+    if switches >= 2:
+        classes.add("both_ran_interleaved")
+    return Info(nontrivial=nontrivial and switches >= 2, classes=sorted(classes))
+
+
 # ---------------------------------------------------------------- sub-check: user entries
 
-_NAMES = ["note", "count", "x_mean", "Epoch", "lr2", "val", "k"]
+import os as _os
+
+# A str entry containing a carriage return comes back with "\n" instead: the history file is read with universal
+# newlines (fixes/C15-entry-carriage-return.diff, replays/C15/entry-with-carriage-return.json). Until that patch is
+# merged the class stays out of the generator and such cases are rejected; VERIF_C15_CR_ENTRIES=1 switches it on.
+ENABLE_CR_IN_STR_ENTRIES = _os.environ.get("VERIF_C15_CR_ENTRIES") == "1"
+
+_NAMES = ["note", "count", "x_mean", "Epoch", "lr2", "val", "k", "my entry", "a,b", "na\u00efve", "q\"uote"]
 _TEXT = st.text(alphabet="abcXYZ 019,\"';.-_/\\#", max_size=8)
+# blanks that are not ASCII spaces, line feeds and tabs inside the value, leading / trailing spaces, NUL, non-Latin text
+_TEXT_WIDE = st.text(alphabet="a\u00e9\u6f22\u00a0\u3000\t\n\x00 ,\"" + ("\r" if ENABLE_CR_IN_STR_ENTRIES else ""), max_size=6)
+_FLOAT_SPECIAL = ["inf", "-inf", 1e308, -1e308, 5e-324, -0.0, 0.1]
+_MANY = (16, 17, 33)
+
+
+def _many_entry(k, i, seed):
+    """Entry k (name, type, fmt) and its value at epoch index i of the many-entries class: pure function."""
+    t = ("int", "float", "str")[k % 3]
+    x = (seed * 31 + k * 7 + i * 13) % 1000 - 500
+    v = x if t == "int" else x / 8 if t == "float" else "s%d,%d" % (k, x)
+    return ["x%02d" % k, t, "{}"], v
 
 
 @st.composite
@@ -359,20 +740,25 @@ def _entries_case(draw, tier):
         t = draw(st.sampled_from(["int", "float", "str"]))
         if t == "int":
             fmt = draw(st.sampled_from(["{}", "{:04d}", "{:d}"]))
-            vals = draw(st.lists(st.integers(-10**6, 10**6), min_size=n, max_size=n))
+            vals = draw(st.lists(st.one_of(st.integers(-10**6, 10**6), st.integers(-10**30, 10**30),
+                                            st.sampled_from([10**30 - 1, 1 - 10**30, 10**29 + 7, 2**64])), min_size=n, max_size=n))
         elif t == "float":
             fmt = draw(st.sampled_from(["{}", "{!r}", "{:.3f}"]))
             if fmt == "{:.3f}":
                 vals = draw(st.lists(dyadic(8, -50, 50), min_size=n, max_size=n))
             else:
-                vals = draw(st.lists(st.floats(allow_nan=False, allow_infinity=False, width=64), min_size=n, max_size=n))
+                vals = draw(st.lists(st.one_of(st.floats(allow_nan=False, allow_infinity=False, width=64),
+                                               st.sampled_from(_FLOAT_SPECIAL)), min_size=n, max_size=n))
         else:
             fmt = draw(st.sampled_from(["{}", "{:s}"]))
-            vals = draw(st.lists(_TEXT, min_size=n, max_size=n))
+            vals = draw(st.lists(st.one_of(_TEXT, _TEXT_WIDE), min_size=n, max_size=n))
         entries.append([name, t, fmt])
         values[name] = vals
     cfg["entries"] = entries
     cfg["values"] = values
+    # many declared entries (16 / 17 / 33 more columns), their values expanded from one integer
+    cfg["many"] = draw(st.sampled_from([0, 0, 0] + list(_MANY)))
+    cfg["many_seed"] = draw(st.integers(0, 1000))
     cfg["storage"] = draw(st.sampled_from(["csv", "dir"]))
     cfg["restarts"] = draw(st.lists(st.integers(0, n), max_size=3))
     return cfg
@@ -383,24 +769,40 @@ def _entries_strategy(tier):
 
 
 @subcheck("C15", "user_entries", _entries_strategy, quick=500, thorough=10000,
-          doc="1-3 declared entries (int / float / str incl. commas and quotes, several format strings), generated values, "
-              "restarts: every epoch's entries come back equal and with the declared type, before and after restarts",
-          required_classes=["restart_inside", "str_with_comma_or_quote"])
+          doc="1-3 declared entries (int incl. 30-digit values / float incl. inf, the largest and smallest doubles, -0.0 / str "
+              "incl. commas, quotes, non-ASCII text and blanks, tabs, line feeds, NUL; odd entry names; several format strings), "
+              "optionally 16 / 17 / 33 further entries expanded from one integer; restarts: every epoch's entries come back "
+              "equal and with the declared type, before and after restarts",
+          required_classes=["restart_inside", "str_with_comma_or_quote", "str_with_line_feed", "str_non_ascii",
+                            "float_special", "int_30_digits", "many_entries", "odd_entry_name"])
 def _entries_check(case):
     infos, conts, ref = _check_domain(case)
     entries = [tuple(e) for e in case["entries"]]
+    values = {name: list(v) for name, v in case["values"].items()}
+    n_all = len(case["val"])
+    for k in range(case.get("many", 0)):
+        ent, _ = _many_entry(k, 0, case.get("many_seed", 0))
+        entries.append(tuple(ent))
+        values[ent[0]] = [_many_entry(k, i, case.get("many_seed", 0))[1] for i in range(n_all)]
+    for name, tname, _ in entries:
+        if tname == "float":
+            values[name] = [T.num(v) for v in values[name]]
+        if tname == "str" and not ENABLE_CR_IN_STR_ENTRIES and any("\r" in v for v in values[name]):
+            raise Reject("carriage return in a str entry: class switched off (see ENABLE_CR_IN_STR_ENTRIES)")
     n_run = len(infos)
     restarts = set(case["restarts"])
     classes = set()
+    if case.get("many", 0):
+        classes.add("many_entries")
     with T.scratch() as root, T.quiet():
         s = T.Session(case, root, use_csv=True, use_dir=case["storage"] == "dir", entries=entries)
         s.start()
 
         def verify(upto, where):
             for e in range(1, upto + 1):
-                info = s.ctl.get_info(e)
+                info = _info_of(s.ctl, e)
                 for name, tname, _ in entries:
-                    exp = case["values"][name][e - 1]
+                    exp = values[name][e - 1]
                     got = info[name]
                     require(type(got) is T.ENTRY_TYPES[tname], "type of entry %r of epoch %d %s" % (name, e, where),
                             type(got).__name__, tname)
@@ -409,10 +811,24 @@ def _entries_check(case):
         if 0 in restarts:
             s.rebuild_controller_only()
         for i in range(n_run):
-            user = {name: case["values"][name][i] for name, _, _ in entries}
+            user = {name: values[name][i] for name, _, _ in entries}
             for name, tname, _ in entries:
-                if tname == "str" and any(ch in user[name] for ch in ",\"'"):
-                    classes.add("str_with_comma_or_quote")
+                v = user[name]
+                if tname == "str":
+                    if any(ch in v for ch in ",\"'"):
+                        classes.add("str_with_comma_or_quote")
+                    if "\n" in v:
+                        classes.add("str_with_line_feed")
+                    if "\r" in v:
+                        classes.add("str_with_carriage_return")
+                    if any(ord(ch) > 127 for ch in v):
+                        classes.add("str_non_ascii")
+                elif tname == "float" and (v in (float("inf"), float("-inf")) or abs(v) >= 1e308 or v == 5e-324):
+                    classes.add("float_special")
+                elif tname == "int" and abs(v) >= 10 ** 29:
+                    classes.add("int_30_digits")
+                if not name.isidentifier():
+                    classes.add("odd_entry_name")
                 classes.add("type_" + tname)
             cont = s.epoch(case["train"][i], case["val"][i], **user)
             require(cont == conts[i], "decision at epoch %d with user entries" % (i + 1), cont, conts[i])
@@ -428,7 +844,7 @@ def _entries_check(case):
         # a reader that declares nothing still gets the built-in columns (documented)
         plain = T.make_controller(case, s.csv, s.sdir)
         for e in range(1, n_run + 1):
-            got = {k: plain.get_info(e)[k] for k in INFO_KEYS}
+            got = {k: _info_of(plain, e)[k] for k in INFO_KEYS}
             require(got == infos[e - 1], "built-in columns read without declaring the user entries (epoch %d)" % e,
                     got, infos[e - 1])
     if ref.fired_after_reset:
